@@ -561,7 +561,7 @@ class Ownership:
         if k == "parsej":
             d, ok = rng.choice(_OWN_JSON)
             return self.parse(rng.choice("0001"), d, sl(), rng.choice([0, _P_ONLY, _P_ONLY | _P_OPAQ, _P_STRICT, 0x4000000]),
-                              rng.choice([0, _V_PRESENT]), "j")
+                              rng.choice([0, _V_PRESENT, _V_MULTI]), "j")
         if k == "parsep":
             d = rng.choice(["<i8>4</i8>", "<i8>400</i8>", "<sl>n</sl><sl>m</sl>", "<ol><k>n</k></ol>", "<zz/>", "<x>1</x>", "<v>vv</v>",
                             "<k1>zz</k1>", "<man>m</man>", "<i8>4</i8><i8>5</i8>", "<ul>7</ul", "<in><x>y</x></in>", ""])
@@ -832,10 +832,10 @@ class Ownership:
 
     # ---- verdict ----------------------------------------------------------------------------------------------------
     END = _re.compile(r"end:d(-?\d+),(-?\d+)/(-?\d+),(-?\d+):w(\d+):k(\d+)(?:@(-?\d+):([a-z0-9]+)(?:~([a-z0-9-]*))?)?:l(\d+)$")
-    FLAG = _re.compile(r"(OUT|CHG|UNREL|LINK|FREED|NC|REST|DICT|CTX|NOTFIRST|LOGLOC)!")
+    FLAG = _re.compile(r"(OUT|CHG|UNREL|LINK|FREED|NC|REST|DICT|CTX|NOTFIRST|LOGLOC|ANYPTR)!")
     FLAGTAG = {"OUT": "out-not-null", "CHG": "input-changed", "UNREL": "unrelated-changed", "LINK": "link-broken", "FREED": "input-freed",
                "NC": "not-consumed", "REST": "free-changed-rest", "DICT": "dict-changed-by-failed-load", "CTX": "context-broken-by-load",
-               "NOTFIRST": "not-first-sibling", "LOGLOC": "log-location-unbalanced"}
+               "NOTFIRST": "not-first-sibling", "LOGLOC": "log-location-unbalanced", "ANYPTR": "any-update-keeps-caller-buffer"}
 
     def judge(self, line, out):
         if out.startswith("CRASH(") or out == "TIMEOUT":
